@@ -171,7 +171,33 @@ func serverSession(tag byte, n int) func(l logger) {
 	}
 }
 
-// sharedDialer is a package-level dialer value used by several sessions at once, the way an
+// customServerSession: an upgrader whose zero-copy callbacks hand back values that point into
+// the request as it lies in the read buffer (allowed: "valid until Upgrade returns"), and whose
+// OnBeforeUpgrade hook takes its time (another connection gets served meanwhile).
+func customServerSession(tag byte) func(l logger) {
+	return func(l logger) {
+		req := []byte("GET /" + string(tag) + " HTTP/1.1\r\nHost: example.com\r\nUpgrade: websocket\r\nConnection: Upgrade\r\nSec-WebSocket-Version: 13\r\nSec-WebSocket-Key: " + hs.CanonKey +
+			"\r\nSec-WebSocket-Protocol: proto-" + string(tag) + "\r\nSec-WebSocket-Extensions: ext-" + string(tag) + "; level=" + string(tag) + "\r\n\r\n")
+		u := ws.Upgrader{
+			ExtensionCustom: func(v []byte, dst []httphead.Option) ([]httphead.Option, bool) { return httphead.ParseOptions(v, dst) },
+			ProtocolCustom:  func(v []byte) (string, bool) { return string(v), true },
+			OnBeforeUpgrade: func() (ws.HandshakeHeader, error) {
+				l.Yield()
+				l.Yield()
+				return nil, nil
+			},
+		}
+		var out bytes.Buffer
+		h, err := u.Upgrade(struct {
+			io.Reader
+			io.Writer
+		}{ySrc{bytes.NewReader(req), l}, &out})
+		resp := hs.ParseHead(out.Bytes())
+		l.Logf("custom upgrade err=%v protocol=%q sent-protocol=%v sent-extensions=%v", err, h.Protocol, resp.Get("Sec-WebSocket-Protocol"), resp.Get("Sec-WebSocket-Extensions"))
+	}
+}
+
+// sharedDialer is a package-level dialer value used by several sessions at once, the way an// sharedDialer is a package-level dialer value used by several sessions at once, the way an
 // application shares ws.DefaultDialer or its own configured dialer.
 var sharedDialer ws.Dialer
 
@@ -615,6 +641,8 @@ func sessions() map[string]session {
 	add("S5b", helperSession(5, flate.HuffmanOnly, 400))
 	add("S6", textSession(6))
 	add("S7", cancelledDialSession(8))
+	add("S8", customServerSession('m'))
+	add("S8b", customServerSession('n'))
 	add("S6b", textSession(7))
 	return m
 }
@@ -842,7 +870,7 @@ func main() {
 			t.Outcome("deterministic")
 			t.Note("each session alone: same log on the non-recycling pool twice and on the poisoning LIFO pool")
 		})
-		mixes2 := [][]string{{"S2s", "S2t"}, {"S4a", "S4b"}, {"S1", "S2"}, {"S1", "S1b"}, {"S2", "S2b"}, {"S1", "S3"}, {"S2", "S3"}, {"S3", "S3b"}, {"S1L", "S2L"}, {"S1L", "S1"}, {"S3L", "S2"}, {"S3L", "S3"}, {"S3", "S5"}, {"S5", "S5b"}, {"S6", "S6b"}, {"S1", "S6"}, {"S7", "S2"}}
+		mixes2 := [][]string{{"S2s", "S2t"}, {"S4a", "S4b"}, {"S1", "S2"}, {"S1", "S1b"}, {"S2", "S2b"}, {"S1", "S3"}, {"S2", "S3"}, {"S3", "S3b"}, {"S1L", "S2L"}, {"S1L", "S1"}, {"S3L", "S2"}, {"S3L", "S3"}, {"S3", "S5"}, {"S5", "S5b"}, {"S6", "S6b"}, {"S1", "S6"}, {"S7", "S2"}, {"S8", "S8b"}, {"S8", "S1"}}
 		mixes3 := [][]string{{"S1", "S2", "S3"}, {"S1", "S1b", "S2"}, {"S2", "S2b", "S3"}}
 		r.Part("E1-two-sessions-preemption-bounded", func(t *explore.T) {
 			b := t.Pick(2, 3)
